@@ -28,8 +28,29 @@ ASSUMPTIONS = [
 ]
 
 
+@st.composite
+def with_options(draw, base):
+    """The hierarchy semantics must hold under every conversion option: half
+    of the cases run with defaults, the others with a drawn option set."""
+    case = draw(base)
+    argv = []
+    if draw(st.booleans()):
+        for flag in ('--skip-deduplication', '--always-inline-filling',
+                     '--always-inline-filled'):
+            if draw(st.booleans()):
+                argv.append(flag)
+        score = draw(st.sampled_from([None, '-1', '0', '0.5', '2', '1e9']))
+        if score is not None:
+            argv += ['--max-inline-score', score]
+    case['argv_extra'] = argv
+    case['labels'] = sorted(set(case['labels'])
+                            | set('opt:' + a for a in argv
+                                  if a.startswith('--')))
+    return case
+
+
 def strategy(tier):
-    return gen_hier.hier_case(tier, {'lattice': False})
+    return with_options(gen_hier.hier_case(tier, {'lattice': False}))
 
 
 def budget(tier):
@@ -54,6 +75,7 @@ def run_semantic(case, prefix, check_prov=True, check_comp=False, argv=()):
     locator = md.Locator(deck)
     n_pts = 260 if case.get('tier') == 'quick' else 1200
     P = semcheck.make_points(locator, case['pseed'], n_pts, case['box'])
+    argv = list(argv) + list(case.get('argv_extra') or [])
     res = conv.convert(text, mr.argv_of(deck, argv))
     if not res.ok:
         loc = locator.locate(P)
